@@ -221,3 +221,21 @@ Definition iter_collect {S A} (next : S -> res (S * option A)) (it : S) : res (l
       | None => Ok (inr acc)
       | Some a => Ok (inl (fst r, acc ++ [a]))
       end) (it, []).
+
+(* ---------------------------------------------------------------------------------------------
+   added for the DACs and the wavelet matrix (Proofs/LoopsTieDW.v)
+   --------------------------------------------------------------------------------------------- *)
+(* a..=b (the bounds are usize values: b + 1 is computed in N, it cannot wrap) *)
+Definition nrange_incl (a b : N) : list N := nrange a (b + 1).
+
+(* v.iter().enumerate(): the pairs (index, element) *)
+Definition enumerate_from {A} (start : N) (l : list A) : list (N * A) := combine (nseq_from start (length l)) l.
+Definition enumerate {A} (l : list A) : list (N * A) := enumerate_from 0 l.
+
+Lemma enumerate_from_cons {A} start (x : A) l :
+  enumerate_from start (x :: l) = (start, x) :: enumerate_from (N.succ start) l.
+Proof. reflexivity. Qed.
+
+(* Iterator::max over usize items: None for an empty iterator *)
+Definition list_max_opt (l : list N) : option N :=
+  match l with [] => None | x :: r => Some (fold_left N.max r x) end.
